@@ -34,7 +34,7 @@ func genFacts(repo string) string {
 	const modPrefix = "github.com/jsightapi/jsight-api-core/"
 
 	type site struct{ pkg, file, fn, what string }
-	var mapRanges, osCalls, panics, recovers, goStmts, asserts, imports []site
+	var mapRanges, osCalls, panics, recovers, goStmts, asserts, imports, fieldWrites, sortCalls []site
 	var pvars []*pvarT
 	pvarIdx := map[types.Object]*pvarT{}
 	var phasesCompile, phasesProject []string
@@ -114,6 +114,9 @@ func genFacts(repo string) string {
 									switch pn.Imported().Path() {
 									case "os", "io/ioutil", "path/filepath", "time", "math/rand", "runtime":
 										osCalls = append(osCalls, site{short, fname, fn, pn.Imported().Path() + "." + sel.Sel.Name})
+									case "sort", "slices":
+										// in-place reordering: of a catalog slice it would change the catalog
+										sortCalls = append(sortCalls, site{short, fname, fn, pn.Imported().Path() + "." + sel.Sel.Name})
 									}
 								}
 							}
@@ -144,9 +147,15 @@ func genFacts(repo string) string {
 					case *ast.AssignStmt:
 						for _, l := range x.Lhs {
 							recordWrite(p, l, pvarIdx, short, fname, fn, inOnce, "assign")
+							if w := catalogFieldWrite(p, l, modPrefix); w != "" && x.Tok != token.DEFINE && inOnce == 0 {
+								fieldWrites = append(fieldWrites, site{short, fname, fn, w})
+							}
 						}
 					case *ast.IncDecStmt:
 						recordWrite(p, x.X, pvarIdx, short, fname, fn, inOnce, "incdec")
+						if w := catalogFieldWrite(p, x.X, modPrefix); w != "" && inOnce == 0 {
+							fieldWrites = append(fieldWrites, site{short, fname, fn, w})
+						}
 					case *ast.UnaryExpr:
 						if x.Op == token.AND {
 							recordWrite(p, x.X, pvarIdx, short, fname, fn, inOnce, "addr")
@@ -213,6 +222,23 @@ func genFacts(repo string) string {
 	emitSites("goStmts", goStmts)
 	emitSites("typeAsserts", asserts)
 	emitSites("sensitiveImports", imports)
+	{
+		// writes to fields of catalog types outside sync.Once bodies, in the packages that serialise / export
+		var ser []site
+		for _, w := range fieldWrites {
+			if w.pkg == "kit" || w.pkg == "catalog/ser/openapi" || w.pkg == "catalog" {
+				ser = append(ser, w)
+			}
+		}
+		emitSites("catalogFieldWrites", ser)
+		var sc []site
+		for _, w := range sortCalls {
+			if w.pkg == "kit" || w.pkg == "catalog/ser/openapi" || w.pkg == "catalog" {
+				sc = append(sc, w)
+			}
+		}
+		emitSites("sortCalls", sc)
+	}
 	b.WriteString("def pkgVars : List PkgVar := [\n")
 	for i, v := range pvars {
 		sep := ","
@@ -237,6 +263,45 @@ func genFacts(repo string) string {
 	strList("phasesProject", phasesProject)
 	b.WriteString("\nend JsightVerif.Gen\n")
 	return b.String()
+}
+
+// catalogFieldWrite: "Type.field" when the expression (under index / deref / parentheses) selects a field of a
+// struct type declared in package catalog; "" otherwise
+func catalogFieldWrite(p *packages.Package, e ast.Expr, modPrefix string) string {
+	for {
+		switch x := e.(type) {
+		case *ast.ParenExpr:
+			e = x.X
+			continue
+		case *ast.IndexExpr:
+			e = x.X
+			continue
+		case *ast.StarExpr:
+			e = x.X
+			continue
+		}
+		break
+	}
+	sel, ok := e.(*ast.SelectorExpr)
+	if !ok {
+		return ""
+	}
+	s, ok := p.TypesInfo.Selections[sel]
+	if !ok || s.Kind() != types.FieldVal {
+		return ""
+	}
+	t := s.Recv()
+	if pt, ok := t.(*types.Pointer); ok {
+		t = pt.Elem()
+	}
+	nt, ok := t.(*types.Named)
+	if !ok || nt.Obj().Pkg() == nil {
+		return ""
+	}
+	if nt.Obj().Pkg().Path() != modPrefix+"catalog" {
+		return ""
+	}
+	return nt.Obj().Name() + "." + sel.Sel.Name
 }
 
 func recvName(e ast.Expr) string {
